@@ -17,6 +17,7 @@ import (
 	"strings"
 	"sync/atomic"
 	"testing"
+	"time"
 
 	"github.com/cloudwego/eino/callbacks"
 	"github.com/cloudwego/eino/compose"
@@ -61,9 +62,17 @@ func genC13(t *rapid.T) CaseC13 {
 	}
 	mode := []string{"pregel", "pregel", "dag", "workflow", "chain"}[rapid.IntRange(0, 4).Draw(t, "mode")]
 	c := CaseC13{Spec: gkit.GenTop(t, mode, cfg)}
+	stateFan := rapid.IntRange(0, 5).Draw(t, "stateFan") == 0
+	if stateFan {
+		// directed: producers of one step working on the graph's state; one may panic inside its ProcessState handler
+		c.Spec = gkit.GenStateFan(t, false)
+	}
 	c.Input = gkit.GenInput(t, c.Spec.In)
 	c.Paradigm = []string{"invoke", "invoke", "stream", "collect", "transform"}[rapid.IntRange(0, 4).Draw(t, "paradigm")]
 	c.Logging = rapid.IntRange(0, 2).Draw(t, "logging") == 0
+	if stateFan {
+		return c
+	}
 	var ls []*gkit.NodeSpec
 	allLambdas(c.Spec, "", false, func(n *gkit.NodeSpec, tag string, nameable bool) { ls = append(ls, n) })
 	if len(ls) == 0 {
@@ -99,6 +108,16 @@ func genC13(t *rapid.T) CaseC13 {
 
 var c13Rec *vkit.Recorder
 
+// watched13 runs one case under a watchdog: "a panic ... never hangs the run" - a case that has not returned after
+// 40 s (twice checked) is reported with all goroutine stacks.
+func watched13(c CaseC13, body func() *vkit.Failure) *vkit.Failure {
+	rec := c13Rec
+	if rec == nil {
+		rec = vkit.NewRecorder("C13")
+	}
+	return vkit.Watchdog(rec, c, 40*time.Second, nil, func() *vkit.Failure { return vkit.Guard("panic-escaped", body) })
+}
+
 func checkC13(c CaseC13) (*vkit.Failure, vkit.Meta) {
 	var m vkit.Meta
 	if c.Spec == nil {
@@ -108,7 +127,7 @@ func checkC13(c CaseC13) (*vkit.Failure, vkit.Meta) {
 		c13Rec.Current(c)
 		defer c13Rec.ClearCurrent()
 	}
-	f := vkit.Guard("panic-escaped", func() *vkit.Failure {
+	f := watched13(c, func() *vkit.Failure {
 		in := fixInput(c.Spec, c.Input)
 		ref := gkit.Ref(c.Spec, "", in, gkit.RefOpts{})
 		want := baseClass(ref.Fail)
@@ -232,7 +251,7 @@ func checkC13(c CaseC13) (*vkit.Failure, vkit.Meta) {
 						why = append(why, fmt.Sprintf("%s: recovered error belongs to %s", tg, ie.Node))
 						continue
 					}
-				case "panic", "streampanic":
+				case "panic", "streampanic", "pspanic":
 					if !strings.Contains(rerr.Error(), "injected panic in") {
 						why = append(why, fmt.Sprintf("%s: error does not mention the panic", tg))
 						continue
